@@ -164,9 +164,12 @@ Inductive xop :=
 | XoRemoveShared (k : nat) (sid : nat)
 | XoClone (k : nat)
 | XoSet (k : nat) (c : nat) (v : Z)
-| XoDep (c : nat) (m : mask).
+| XoDep (c : nat) (m : mask)
+| XoBuild (tid : nat) (target : option nat) (assigns : list (nat * Z)) (removes : list nat).   (* one builder edit *)
 
 Definition issued_b (s : xst) (k : nat) : bool := Nat.ltb k (x_count s).
+Fixpoint NoDup_b (l : list nat) : bool :=
+  match l with [] => true | x :: t => negb (existsb (Nat.eqb x) t) && NoDup_b t end.
 
 Definition tid_ok (s : xst) (tid : nat) : bool := Nat.ltb tid (x_nthr s).
 
@@ -187,6 +190,22 @@ Definition out_of_contract (s : xst) (o : xop) : bool :=
     | None => false
     end
   | XoUpdate | XoClear | XoClearArch _ _ => negb (Nat.eqb (x_lock s) 0)
+  | XoBuild tid target assigns removes =>
+    (* a builder edit names each component at most once, targets a live entity (or none: a new one) and changes its component set *)
+    existsb (fun a => existsb (Nat.eqb (fst a)) removes) assigns ||
+    negb (NoDup_b (map fst assigns)) ||
+    match x_lock s with
+    | S _ => negb (tid_ok s tid) || match target with Some k => negb (issued_b s k) | None => false end
+    | O =>
+      match target with
+      | None => false
+      | Some k =>
+        match find_ent s k with
+        | None => true
+        | Some e => (match assigns with [] => true | _ => false end) && negb (existsb (has_comp (e_comps e)) removes)
+        end
+      end
+    end
   | _ => false
   end.
 
@@ -258,6 +277,25 @@ Definition x_step_in (s : xst) (o : xop) : xst :=
                 else s
     end
   | XoDep c m => xw_deps s (x_add_dep (x_deps s) c m)
+  | XoBuild tid target assigns removes =>
+    (* the edit is the assignments followed by the removals, on the target or on a new entity without components
+       (removals mean nothing for a new entity) *)
+    match target with
+    | None =>
+      let k := x_count s in
+      let s1 := xw_count s (S k) in
+      match x_lock s with
+      | O => fold_left (fun st (a : nat * Z) => x_assign st k (fst a) (Some (snd a))) assigns (x_create s1 k 0%N [])
+      | S _ => fold_left (fun st (a : nat * Z) => x_push st tid (XAssign k (fst a) (Some (snd a)))) assigns (x_push s1 tid (XCreate k 0%N []))
+      end
+    | Some k =>
+      match x_lock s with
+      | O => fold_left (fun st c => x_remove st k c)
+                       removes (fold_left (fun st (a : nat * Z) => x_assign st k (fst a) (Some (snd a))) assigns s)
+      | S _ => fold_left (fun st c => x_push st tid (XRemove k c))
+                         removes (fold_left (fun st (a : nat * Z) => x_push st tid (XAssign k (fst a) (Some (snd a)))) assigns s)
+      end
+    end
   end.
 
 Definition x_step (s : xst) (o : xop) : xst :=
